@@ -185,7 +185,93 @@ func typedHelpers[K comparable](mk func() *spell.U[K]) {
 	}
 }
 
+// longUnwanted: Trim / TrimLeft / TrimRight / Except with long lists of unwanted values (9..40 values, most
+// of them not in the slice; a set-based fast path behind a length threshold) on ints, and on []any slices
+// that hold one slice-valued element (== between an int and a slice is simply false; only hashing fails).
+func longUnwanted() {
+	for _, extra := range []int{6, 7, 8, 9, 15, 16, 17, 40} {
+		for mask := 0; mask < 8; mask++ {
+			var unwanted []int
+			for v := 0; v < 3; v++ {
+				if mask>>uint(v)&1 == 1 {
+					unwanted = append(unwanted, v)
+				}
+			}
+			for i := 0; i < extra; i++ {
+				unwanted = append(unwanted, 50+i)
+			}
+			isUn := func(v int) bool { return v >= 50 && v < 50+extra || (v >= 0 && v < 3 && mask>>uint(v)&1 == 1) }
+			for code := 0; code < 243; code++ { // every slice over {0,1,2} of length 5
+				sl := make([]int, 5)
+				for i, d := 0, code; i < 5; i, d = i+1, d/3 {
+					sl[i] = d % 3
+				}
+				lo, hi := 0, 5
+				for lo < hi && isUn(sl[lo]) {
+					lo++
+				}
+				hiR := 5
+				for hiR > 0 && isUn(sl[hiR-1]) {
+					hiR--
+				}
+				for hi > lo && isUn(sl[hi-1]) {
+					hi--
+				}
+				in := map[string]any{"slice": fmt.Sprint(sl), "unwanted": len(unwanted), "mask": mask}
+				e.Input(true)
+				enum.Catch(func() {
+					e.Call()
+					if got := slices.Trim(sl, unwanted); fmt.Sprint(got) != fmt.Sprint(sl[lo:hi]) {
+						e.Fail("Trim|result", in, "Trim(%v, %d unwanted values %v...) = %v, want %v", sl, len(unwanted), unwanted[:min(4, len(unwanted))], got, sl[lo:hi])
+					}
+					if got := slices.TrimLeft(sl, unwanted); fmt.Sprint(got) != fmt.Sprint(sl[lo:]) {
+						e.Fail("TrimLeft|result", in, "TrimLeft(%v, %d unwanted values) = %v, want %v", sl, len(unwanted), got, sl[lo:])
+					}
+					if got := slices.TrimRight(sl, unwanted); fmt.Sprint(got) != fmt.Sprint(sl[:hiR]) {
+						e.Fail("TrimRight|result", in, "TrimRight(%v, %d unwanted values) = %v, want %v", sl, len(unwanted), got, sl[:hiR])
+					}
+					var wantEx []int
+					for _, v := range sl {
+						if !isUn(v) {
+							wantEx = append(wantEx, v)
+						}
+					}
+					if got := slices.Except(sl, unwanted); fmt.Sprint(got) != fmt.Sprint(wantEx) && !(len(got) == 0 && len(wantEx) == 0) {
+						e.Fail("Except|result", in, "Except(%v, %d excluded values) = %v, want %v", sl, len(unwanted), got, wantEx)
+					}
+				})
+			}
+		}
+	}
+	// interface elements, one of them a slice
+	hole := any([]int{9})
+	for _, extra := range []int{1, 9, 20} {
+		var unwanted []any
+		for i := 0; i < extra; i++ {
+			unwanted = append(unwanted, i)
+		}
+		sl := []any{0, 1, hole, "x", 1, 0}
+		in := map[string]any{"slice": "[0 1 [9] x 1 0]", "unwanted": extra}
+		e.Input(true)
+		e.Call()
+		if p, m := enum.Catch(func() {
+			if got := slices.Trim(sl, unwanted); len(got) != 2 && extra > 1 || extra == 1 && len(got) != 4 {
+				e.Fail("Trim|result", in, "Trim([]any{0,1,[]int{9},\"x\",1,0}, the ints 0..%d) has length %d", extra-1, len(got))
+			}
+			if i := slices.Index(sl, any("x")); i != 3 {
+				e.Fail("Index|result", in, "Index of \"x\" in a []any holding a slice = %d", i)
+			}
+			if !slices.Contains(sl, any(1)) || slices.Contains(sl, any(7)) {
+				e.Fail("Contains|result", in, "Contains on a []any holding a slice")
+			}
+		}); p {
+			e.Fail("Trim|panic", in, "helpers on a []any that holds a slice-valued element (compared only with ints and strings) panicked: %s", m)
+		}
+	}
+}
+
 func allTypedHelpers() {
+	longUnwanted()
 	typedHelpers(spell.Float64)
 	typedHelpers(spell.String)
 	typedHelpers(spell.Any)
